@@ -356,10 +356,44 @@ func (c *regexpSimplifyChecker) canMerge(x, y syntax.Expr) bool {
 		return false
 	}
 	switch x.Op {
-	case syntax.OpChar, syntax.OpCharClass, syntax.OpEscapeMeta, syntax.OpEscapeChar, syntax.OpNegCharClass, syntax.OpGroup:
+	case syntax.OpChar, syntax.OpCharClass, syntax.OpEscapeMeta, syntax.OpEscapeChar, syntax.OpNegCharClass:
 		return x.Value == y.Value
+	case syntax.OpGroup:
+		// `xx*` and `x+` find different matches if x can match an empty string:
+		// an empty iteration ends the star loop. `(?:a?|b)(?:a?|b)*` matches "a" in "ab",
+		// `(?:a?|b)+` matches "ab".
+		return x.Value == y.Value && !c.canMatchEmpty(x)
 	default:
 		return false
+	}
+}
+
+// canMatchEmpty reports whether e may match an empty string.
+// It errs on the side of "yes".
+func (c *regexpSimplifyChecker) canMatchEmpty(e syntax.Expr) bool {
+	switch e.Op {
+	case syntax.OpChar, syntax.OpDot, syntax.OpCharClass, syntax.OpNegCharClass,
+		syntax.OpEscapeChar, syntax.OpEscapeMeta, syntax.OpEscapeOctal, syntax.OpEscapeHex, syntax.OpEscapeUni,
+		syntax.OpPosixClass:
+		return false
+	case syntax.OpPlus, syntax.OpGroup, syntax.OpCapture, syntax.OpNamedCapture:
+		return len(e.Args) == 0 || c.canMatchEmpty(e.Args[len(e.Args)-1])
+	case syntax.OpConcat:
+		for _, a := range e.Args {
+			if !c.canMatchEmpty(a) {
+				return false
+			}
+		}
+		return true
+	case syntax.OpAlt:
+		for _, a := range e.Args {
+			if c.canMatchEmpty(a) {
+				return true
+			}
+		}
+		return len(e.Args) == 0
+	default:
+		return true
 	}
 }
 
